@@ -18,6 +18,7 @@ ASSUMPTIONS = [
     "set_params updates are generated so that the resulting configuration is valid (checked by a trial construction); set_params resets the fitted state (sktime semantics), which the model mirrors",
     "update uses pandas data whose index continues the training index or repeats its last 1-2 labels (the new rows win); the reference is fit on new.combine_first(old)",
     "outputs are compared at 1e-12 relative; exceptions must have the same class in the real and in the history-free execution",
+    "the history-free execution receives the very same data objects as the real one (not copies): a deep copy can change the memory layout, hence the summation order and the last bits, hence the tie-breaking on exactly tied scores; mutation of the caller's data is detected by the pristine-copy invariant instead",
     "change / local-anomaly detectors whose cost has a fixed parameter have identically zero scores (additive cost): their detections are rounding noise, so only threshold and scores are compared (1e-9 x scale)",
 ]
 
@@ -123,7 +124,7 @@ class Interpreter:
     def training_frame(self, m):
         frame = None
         for d in m["train"]:
-            new = self.data[d].copy(deep=True)
+            new = self.data[d]  # the very same object the real detector saw (see ASSUMPTIONS on memory layout)
             frame = new if frame is None else new.combine_first(frame)
         return frame
 
@@ -252,7 +253,7 @@ class Interpreter:
             return
         m = self.det_model[op["slot"]]
         real = outcome_of(lambda: self.det[op["slot"]].fit(self.data[op["data"]]))
-        fresh = outcome_of(lambda: self.fresh_detector(m).fit(self.data[op["data"]].copy(deep=True)))
+        fresh = outcome_of(lambda: self.fresh_detector(m).fit(self.data[op["data"]]))
         self._same_outcome("fit", op, real, fresh, compare_value=False)
         if m["fitted"]:
             self.stats["refits"] += 1
@@ -333,7 +334,7 @@ class Interpreter:
             return np.concatenate(([thr], vals))
 
         real = outcome_of(lambda: run(self.det[op["slot"]], X))
-        fresh = outcome_of(lambda: run(self._fresh_fitted(m), X.copy(deep=True)))
+        fresh = outcome_of(lambda: run(self._fresh_fitted(m), X))
         if degenerate and real[0] == "ok" and fresh[0] == "ok":
             a, b = real[1], fresh[1]
             scale = 1.0 + float(np.abs(X.to_numpy()).max()) ** 2 * len(X)
@@ -374,7 +375,7 @@ class Interpreter:
 
         was_fitted = m["fitted"]
         real = outcome_of(lambda: conv(getattr(self.det[op["slot"]], method)(X)))
-        fresh = outcome_of(lambda: conv(getattr(self.fresh_detector(m).fit(X.copy(deep=True)), second)(X.copy(deep=True))))
+        fresh = outcome_of(lambda: conv(getattr(self.fresh_detector(m).fit(X), second)(X)))
         self._same_outcome(method, op, real, fresh, compare_value=not self._is_degenerate(m))
         if real[0] == "ok":
             m["fitted"] = True
@@ -400,7 +401,7 @@ class Interpreter:
         X = self.data[d]
         real = outcome_of(lambda: sparse_signature(self.det[op["slot"]].update_predict(X)))
         mm = dict(m, train=m["train"] + [d])
-        fresh = outcome_of(lambda: sparse_signature(self.fresh_detector(m).fit(self.training_frame(mm)).predict(X.copy(deep=True))))
+        fresh = outcome_of(lambda: sparse_signature(self.fresh_detector(m).fit(self.training_frame(mm)).predict(X)))
         self._same_outcome("update_predict", op, real, fresh, compare_value=not self._is_degenerate(m))
         if real[0] == "ok":
             m["train"] = m["train"] + [d]
@@ -456,7 +457,7 @@ class Interpreter:
             return
         m = self.sc_model[op["slot"]]
         real = outcome_of(lambda: self.sc[op["slot"]].fit(self.data[op["data"]]))
-        fresh = outcome_of(lambda: K.build(m["spec"]).fit(self.data[op["data"]].copy(deep=True)))
+        fresh = outcome_of(lambda: K.build(m["spec"]).fit(self.data[op["data"]]))
         self._same_outcome("scorer.fit", op, real, fresh, compare_value=False)
         if real[0] == "ok":
             m["train"] = op["data"]
@@ -482,7 +483,7 @@ class Interpreter:
         def fresh_run():
             f = K.build(m["spec"])
             if m["train"] is not None:
-                f.fit(self.data[m["train"]].copy(deep=True))
+                f.fit(self.data[m["train"]])
             return np.asarray(f.evaluate(cuts))
 
         fresh = outcome_of(fresh_run)
